@@ -22,7 +22,7 @@ use std::collections::BTreeSet;
 
 use crate::with_k;
 
-pub const KTYPES: [&str; 8] = ["Kmer4", "Kmer6", "Kmer8", "Kmer16", "Kmer20", "KmerK31", "Kmer32", "Kmer48"];
+pub const KTYPES: [&str; 17] = ["Kmer4", "Kmer5", "Kmer6", "Kmer8", "Kmer10", "Kmer12", "Kmer14", "Kmer15", "Kmer16", "Kmer20", "Kmer24", "Kmer30", "KmerK31", "Kmer32", "Kmer40", "Kmer48", "Kmer64"];
 
 /// k-mer types below the pipeline's minimum (K >= 4): only reachable through `BaseGraph::add`
 pub const TINY_KTYPES: [&str; 2] = ["Kmer2", "Kmer3"];
@@ -342,7 +342,7 @@ impl Harness for Consumer {
     fn run(&self, c: &ConsumerCase, rec: &mut Rec) -> Result<(), Violation> {
         with_k!(
             c.graph.ktype.as_str(),
-            [Kmer2, Kmer3, Kmer4, Kmer6, Kmer8, Kmer16, Kmer20, KmerK31, Kmer32, Kmer48],
+            [Kmer2, Kmer3, Kmer4, Kmer5, Kmer6, Kmer8, Kmer10, Kmer12, Kmer14, Kmer15, Kmer16, Kmer20, Kmer24, Kmer30, KmerK31, Kmer32, Kmer40, Kmer48, Kmer64],
             run_consumer,
             (c, rec)
         )
@@ -533,7 +533,7 @@ impl Harness for MphfSerial {
     fn run(&self, c: &MphfCase, rec: &mut Rec) -> Result<(), Violation> {
         with_k!(
             c.graph.ktype.as_str(),
-            [Kmer4, Kmer6, Kmer8, Kmer16, Kmer20, KmerK31, Kmer32, Kmer48],
+            [Kmer4, Kmer5, Kmer6, Kmer8, Kmer10, Kmer12, Kmer14, Kmer15, Kmer16, Kmer20, Kmer24, Kmer30, KmerK31, Kmer32, Kmer40, Kmer48, Kmer64],
             run_mphf_serial,
             (c, rec)
         )
